@@ -51,7 +51,12 @@ func (r *Recorder) lastXML() interface{} {
 
 func (r *Recorder) BucketNames() []string {
 	if s, ok := r.lastXML().(*gofakes3.Storage); ok {
-		return s.Buckets.Names()
+		// in document order (Buckets.Names would sort them)
+		var out []string
+		for _, b := range s.Buckets {
+			out = append(out, b.Name)
+		}
+		return out
 	}
 	return nil
 }
